@@ -10,7 +10,7 @@ import (
 )
 
 func init() {
-	register(&Suite{Name: "read", Gen: genRead, Exec: execRead})
+	register(&Suite{Name: "read", Gen: genRead, Exec: execRead, Isolated: true})
 }
 
 type readCfg struct {
